@@ -5,6 +5,7 @@
 (*   [t |-> "eq",  a, b, envs]     b (a rewrite of a) has a's width and value under *)
 (*                                 every listed environment where a is defined      *)
 (*   [t |-> "val", a, env, v]      the implementation computed v for a under env    *)
+(*   [t |-> "vals", a, envs, vs]   the same for several environments at once        *)
 (*   [t |-> "simp", a, b, envs, status, idem]   one recorded simplifier call:       *)
 (*         Call(a) -> Return(b) -> Call(b) -> Return(b2); status is "ok" or names   *)
 (*         the exception / exhausted budget; idem says b2 is the same object as b   *)
@@ -27,6 +28,15 @@ FirstBadEq(a, b, envs, k) ==
        ELSE IF va.ok /\ (~vb.ok \/ vb.v # va.v) THEN k
        ELSE FirstBadEq(a, b, envs, k + 1)
 
+(* vs[k] is the value the implementation produced under envs[k]; undefined points impose nothing *)
+RECURSIVE FirstBadVal(_, _, _, _)
+FirstBadVal(a, envs, vs, k) ==
+  IF k > Len(envs) THEN 0
+  ELSE LET va == Eval(a, envs[k]) IN
+       IF va.unk THEN -1
+       ELSE IF va.ok /\ va.v # FromBytes(vs[k], a.w) THEN k
+       ELSE FirstBadVal(a, envs, vs, k + 1)
+
 Verdict(it) ==
   CASE it.t = "eq" ->
          IF it.a.w # it.b.w THEN "width"
@@ -41,6 +51,9 @@ Verdict(it) ==
               IF r > 0 THEN "bad:" \o ToString(r)
               ELSE IF ~it.idem THEN "notfixed"        \* simplifying the result again returned something else
               ELSE IF r = -1 THEN "unk" ELSE "ok"
+    [] it.t = "vals" ->
+         LET r == FirstBadVal(it.a, it.envs, it.vs, 1) IN
+         IF r = 0 THEN "ok" ELSE IF r = -1 THEN "unk" ELSE "bad:" \o ToString(r)
     [] it.t = "val" ->
          LET va == Eval(it.a, it.env) IN
          IF va.unk THEN "unk" ELSE IF ~va.ok THEN "undef"
